@@ -224,8 +224,8 @@ def run_harnesses(scratch, crate: str, harnesses, jobs=None, extra_flags=None):
     tmo = max(h.timeout for h in harnesses)
     cmd = ["cargo", "kani", "-p", crate] + KANI_FLAGS + CRATE_FEATURES.get(crate, [])
     for h in harnesses:
-        cmd += ["--harness", h.name]
-    cmd += ["--exact"] if False else []
+        cmd += ["--harness", f"{h.module}::{h.name}"]
+    cmd += ["--exact"]
     cmd += ["-j", str(jobs), "--harness-timeout", f"{tmo}s", "--output-format", "terse"]
     cmd += extra_flags or []
     env = {"CARGO_TARGET_DIR": str(scratch.dir / "target")}
@@ -266,7 +266,7 @@ def _playback(scratch, h: Harness):
     Returns dict(confirmed: bool|None, values, test, log)."""
     cmd = ["cargo", "kani", "-p", h.crate] + KANI_FLAGS + ["-Z", "concrete-playback",
            "--concrete-playback=print"] + CRATE_FEATURES.get(h.crate, []) + \
-          ["--harness", h.name, "--harness-timeout", f"{h.timeout}s", "--output-format", "terse"]
+          ["--harness", f"{h.module}::{h.name}", "--exact", "--harness-timeout", f"{h.timeout}s", "--output-format", "terse"]
     env = {"CARGO_TARGET_DIR": str(scratch.dir / "target")}
     rc, out, err, wall = run(cmd, cwd=scratch.repo, env=env, timeout=h.timeout + 900)
     m = re.search(r"```\n(.*?)```", out, re.S)
